@@ -38,6 +38,15 @@ def _one(case):
     return ('equiv' if why is None else 'differ', why, st, tr)
 
 
+LOGPRE = PRE + ''.join('@{%s}=/x\n' % v for v in ('user_state_dirs', 'user_bin_dirs', 'user_lib_dirs', 'XDG_SSH_DIR', 'XDG_GPG_DIR', 'arch', 'multiarch', 'etc_ro', 'pid', 'tid',
+                                                      'pci_bus', 'pci', 'att', 'uuid', 'int64', 'hex64', 'hex38', 'int32', 'hex32', 'int16', 'hex16', 'int10', 'int8', 'int6'))
+
+
+def _accept(body):
+    b, err = dfax.compile_text(LOGPRE + 'profile stub {\n%s\n}\n' % body, C.UPSTREAM)
+    return b is not None, err
+
+
 def _distinct(pair):
     a, _ = dfax.compile_text(stub(pair[0]), C.UPSTREAM)
     b, _ = dfax.compile_text(stub(pair[1]), C.UPSTREAM)
@@ -81,6 +90,24 @@ def run(tier):
         else:
             fnd.report('meaning-differs kind=%s' % c['kind'], 'apparmor_parser compiles the library text `%s` and the reference spelling `%s` of %s to different policies: %s' % (c['lib'], c['ref'], c['fields'], why),
                        {'lib': c['lib'], 'ref': c['ref'], 'fields': c['fields']})
+    # rules printed from logs (the C16 record alphabet through the real pipeline): acceptance by the reference parser
+    lb = gox.build(os.path.join(C.scratch(), 'gox'), ['c16x'])
+    r = subprocess.run([lb['c16x'], '-tier', t], capture_output=True, text=True)
+    logcases = [json.loads(l) for l in r.stdout.split('\n') if l.startswith('{')]
+    AA4 = ('mqueue', 'io_uring', 'userns')
+    stubs = {}
+    for c in logcases:
+        if any(x['class'] in AA4 for x in c['records']):
+            continue
+        for text in c['out'].values():
+            body = text[text.index('{') + 1:text.rindex('}')]
+            stubs.setdefault(body, c['id'])
+    with ProcessPoolExecutor(C.NPROC) as pool:
+        acc = list(pool.map(_accept, list(stubs), chunksize=16))
+    for (body, cid), (accepted, err) in zip(stubs.items(), acc):
+        if not accepted:
+            fnd.report('log-rule-rejected err=%s' % err.split(':')[-1].strip()[:70], 'apparmor_parser rejects a rule `aa-log --rules` prints (%s): %s' % (err, body.strip()), {'case': cid, 'rules': body})
+    ev.add(rules_from_logs_parsed=len(stubs))
     told = sum(1 for p in power if p); untold = sum(1 for p in power if p is False)
     for c in cases[:2] + cases[-1:]:
         ev.sample({'kind': c['kind'], 'library_text': c['lib'], 'reference_text': c['ref']})
